@@ -62,7 +62,7 @@ def run(ctx):
     exe, model = build(ctx)
     pr = ctx.proofs("c12", "C12Theorems.v")
     # ---- correspondence
-    n = ctx.n(6000, 150000)
+    n = ctx.n(12000, 150000)
     exh = ctx.n(4, 5)
     rc, cases, e = sh2([exe, "corr", "-seed", str(ctx.seed), "-n", str(n), "-exh", str(exh)], timeout=3000)
     if rc != 0:
@@ -87,7 +87,7 @@ def run(ctx):
     ctx.cov["samples"] += [l[:400] for l in lines[len(lines) // 2:len(lines) // 2 + 2]] + [l[:400] for l in lines[-2:]]
     ctx.log("correspondence: %d cases, %d mismatches" % (len(lines), len(mism)))
     # ---- search: the property itself on the implementation
-    ns = ctx.n(4000, 100000)
+    ns = ctx.n(8000, 100000)
     rc, so, e = sh2([exe, "search", "-seed", str(ctx.seed), "-n", str(ns)], timeout=3000)
     if rc != 0:
         raise common.CheckError("harness search failed: " + e[-1000:])
@@ -134,7 +134,7 @@ def run_add_sidx(ctx, exe):
     shutil.rmtree(d, ignore_errors=True)
     os.makedirs(d)
     try:
-        nf = ctx.n(60, 1500)
+        nf = ctx.n(100, 1500)
         rc, so, e = sh2([exe, "emit", "-seed", str(ctx.seed), "-n", str(nf), "-dir", d], timeout=600)
         if rc != 0:
             raise common.CheckError("harness emit failed: " + e[-1000:])
